@@ -126,12 +126,16 @@ theorem areaRecord_ne_nil (c : Ctx) (fs : List Feature) (g : Feature) (data : By
 structure AcceptsFacts (strs : List Str) (fs : List Feature) : Prop where
   distinct : idsDistinct fs = true
   ok : ∀ f ∈ fs, featureOK fs f = true
+  strings : ∀ s ∈ fs.flatMap stringsOf, strs.contains s = true
   strs : strs.length < 2 ^ 48
   small : (nsTable fs).length ≤ 8192
+  nofid : hasFidTag fs = false
+  len : fs.length < 2 ^ 48
 
 theorem accepts_facts (strs : List Str) (fs : List Feature) (h : Accepts strs fs = true) : AcceptsFacts strs fs := by
-  simp only [Accepts, Bool.and_eq_true, decide_eq_true_eq, List.all_eq_true] at h
-  exact ⟨h.1.1.1.1.1.1, h.1.1.1.1.1.2, h.1.1.2, h.1.2⟩
+  simp only [Accepts, Bool.and_eq_true, decide_eq_true_eq, List.all_eq_true, Bool.not_eq_true'] at h
+  obtain ⟨⟨⟨⟨⟨⟨⟨⟨h1, h2⟩, h3⟩, h4⟩, h5⟩, h6⟩, h7⟩, _⟩, _⟩ := h
+  exact ⟨h1, h2, h4, h5, h6, h3, h7⟩
 
 theorem ctxOK_of_built (strs : List Str) (fs : List Feature) (ix : Index) (c : Ctx) (hb : Built strs fs ix c)
     (hs : strs.length < 2 ^ 48) (hsmall : (nsTable fs).length ≤ 8192) : CtxOK c := by
@@ -158,7 +162,7 @@ theorem find_kept (strs : List Str) (fs : List Feature) (ix : Index) (hbuild : b
   have hk : kept fs f = true := by
     unfold kept
     rcases ht with h | h | h <;> simp only [h] at hmatch ⊢
-    · simp only [Bool.and_eq_true] at hmatch; exact hmatch.1.2
+    · simp only [Bool.and_eq_true] at hmatch; exact hmatch.1.1.2
     · simp only [Bool.and_eq_true] at hmatch; exact hmatch.1.2
   obtain ⟨n, b, e, hn, hbm, hbt, hbh, huniq, hem, heid, hetag, herec, heuniq⟩ :=
     placed strs fs ix c hb hA.small hA.distinct f hf ht hk
@@ -180,7 +184,7 @@ theorem find_kept (strs : List Str) (fs : List Feature) (ix : Index) (hbuild : b
   · -- path
     simp only [h] at hmatch herec ⊢
     simp only [Bool.and_eq_true, List.all_eq_true] at hmatch
-    have hvals := validated_tags_ok fs f hmatch.1.1.1
+    have hvals := validated_tags_ok fs f hmatch.1.1.1.1
     have := path_record_roundtrip c hc fs (validated fs f) hvals e.data herec (blockHeader c 1 n) f.id h
     rw [this, validated_id]
   · -- area
